@@ -25,6 +25,10 @@ pub enum Op {
         every: u64,
         #[serde(default)]
         reset_every: u64,
+        /// `clone_every` > 0: the node is replaced by its clone before every such tick (C18: growth
+        /// through repeated clone cycles rather than through next())
+        #[serde(default)]
+        clone_every: u64,
     },
     Reset { n: usize },
     /// derived Clone of `src` becomes node `dst`
